@@ -10,9 +10,13 @@ def run(ctx):
     n = _config.run_merge(ctx, "C32")
     ctx.cov["exhaustive"] = True
     ctx.rule("TLC enumerates every list of config files within the weight bound over the key alphabet {a, a.b, a.c, "
-             "a.b.c} in every flat/nested spelling with leaves {1, 2, [1], [1,2]} (%d abstract cases), together with "
+             "a.b.c} in every flat/nested spelling with leaves {1, 2, [1], [1,2]}, and over the sibling alphabet {a, ab, a.b, "
+             "a.bb} whose names are string prefixes of each other without a dot boundary (2 files; 3 files over {a.b, a.bb}) "
+             "(%d abstract cases), together with "
              "the reference result (later file wins per setting whatever the spelling, arrays appended without "
-             "duplicates); each case is written as real files in three concrete forms and loaded in 2 fresh processes, "
+             "duplicates); each case is written as real files in three concrete forms (sibling cases: abstract keys and the "
+             "real pairs diagnostics.enable/enables, diagnostics.globals/globalsRegex, completion.autoRequire/"
+             "autoRequireFunction, doc/documentColor, in JSON and with one file in Lua) and loaded in 2 fresh processes, "
              "cases where the statement only demands determinism in 16 (quick) / 64 (thorough); non-trivial = weight >= 2" % n)
     ctx.assume("serde_json::Map is a BTreeMap (no preserve_order feature in Cargo.lock), so objects iterate in key order")
     ctx.assume("serde_json::from_value::<Emmyrc> of the reference JSON is the expected typed configuration (serde trusted)")
